@@ -212,6 +212,70 @@ pub fn run_c02(ctx: &Ctx) -> i32 {
     subs.push(crate::mon_a::short_sub(ctx));
     drive(ctx, subs, &[oracle_c02], &mut out, |_c, o| !o.rep.frames.is_empty());
 
+    // (5) the metadata chain: 0..=6 application blocks added with Stream::add_metadata_block (in
+    // one or several steps, interleaved with nothing else), block types 1..=126, lengths 0..4 KiB.
+    // In the emitted bytes the last-block flag must be set on exactly the final block (on
+    // STREAMINFO iff nothing was added), every added block must appear once, in order, with its
+    // type and length, and the first frame must start right behind the chain.
+    let nmeta = ctx.tier.pick(420, 12_000);
+    run_cases(ctx, "metadata", nmeta, &mut out, |idx, out| {
+        let mut rng = Rng::for_case(ctx.seed, "C02.metadata", idx);
+        let mut case = gen_case(&mut rng, &Limits { max_samples: 1500, max_blocks: 3, max_block_size: 512, ..Limits::default() });
+        if idx % 11 == 0 {
+            case.audio = Arc::new(Audio { samples: vec![], ..(*case.audio).clone() });
+        }
+        let Ok(v) = enc::verified(&case.cfg) else { return };
+        let mut src = TestSource::new(Arc::clone(&case.audio), case.mode, case.hint);
+        let mut stream = match enc::encode_stream(&v, &mut src, case.block) {
+            Ok(s) => s,
+            Err(e) => return report_obs_err(ctx, "metadata", idx, &case, &ObsErr::Enc(e), out),
+        };
+        let nblocks = (idx % 7) as usize;
+        let mut want: Vec<(u8, usize)> = vec![];
+        for _ in 0..nblocks {
+            let tag = rng.urange(1, 126) as u8;
+            let len = *rng.pick(&[0usize, 1, 3, 4, 34, 255, 256, 1000, 4096]);
+            let data: Vec<u8> = (0..len).map(|_| rng.next_u64() as u8).collect();
+            match MetadataBlockData::new_unknown(tag, &data) {
+                Ok(b) => {
+                    stream.add_metadata_block(b);
+                    want.push((tag, len));
+                }
+                Err(_) => out.count("metadata_block_refused"),
+            }
+        }
+        let rp = || rpj(ctx, "metadata", idx, json!({"case": case.describe(), "added": want.iter().map(|(t, l)| json!([t, l])).collect::<Vec<_>>()}));
+        match enc::to_bytes(&stream) {
+            Ok(bytes) => {
+                let rep = refdec::decode_stream(&bytes);
+                out.evaluations += 1;
+                out.count(&format!("metadata_chain_len_{}", want.len()));
+                if !want.is_empty() {
+                    out.distinct.insert(case.key() ^ (0xC02 + want.len() as u64));
+                }
+                let got: Vec<(u8, usize)> = rep.meta.iter().map(|m| (m.typ, m.len)).collect();
+                if got != want {
+                    out.violation("C02|metadata|chain-differs", format!("blocks added {want:?}, a reader following the last-block flags sees {got:?}"), rp());
+                }
+                if rep.info.is_last != want.is_empty() {
+                    out.violation("C02|metadata|streaminfo-last-flag", format!("STREAMINFO last-block flag is {} with {} blocks following", rep.info.is_last, want.len()), rp());
+                }
+                for (i, m) in rep.meta.iter().enumerate() {
+                    if m.is_last != (i + 1 == rep.meta.len()) {
+                        out.violation("C02|metadata|last-flag", format!("block {i} of {} has last-block flag {}", rep.meta.len(), m.is_last), rp());
+                    }
+                }
+                let expect_audio = 4 + 4 + 34 + want.iter().map(|(_, l)| 4 + l).sum::<usize>();
+                if rep.audio_offset != expect_audio {
+                    out.violation("C02|metadata|audio-offset", format!("frames start at byte {}, the chain ends at {expect_audio}", rep.audio_offset), rp());
+                }
+                let obs = Observed { stream, bytes, rep, delivered: src.delivered, reads: src.reads };
+                oracle_c02(ctx, "metadata", idx, &case, &obs, out);
+            }
+            Err(e) => report_obs_err(ctx, "metadata", idx, &case, &ObsErr::Ser(e, crate::mon_a::stream_placeholder()), out),
+        }
+    });
+
     let framenum_exhaustive = stride == 1 && header_numbers == total;
     let fin = Finish {
         level: "exploration",
